@@ -59,6 +59,9 @@ def run(ctx, R, tier):
     init_sites(F, R)
     inflight(F, R)
     dt_rule(F, R)
+    # 'tweens keep their real-time speed' at every rate: each parameter is updated exactly once per pass, by that pass's duration
+    from .c06 import cover as parameter_cover
+    parameter_cover(F, R)
 
 
 def renderer(F, R):
